@@ -125,6 +125,8 @@ class World:
             sel.append(f"{lk.source.name}:")
             sel.append(f":{lk.dest.name}")
         self.link_selectors = sorted(set(sel))
+        # links that leave a junction (their weight in a weighted average is the junction's throughput, not its -- always empty -- stock)
+        self.junction_link_selectors = sorted({f"{lk.source.name}:{lk.dest.name}" for lk in p0.links if isinstance(lk.source, JunctionCompartment) and np.any(np.asarray(lk.vals, dtype=float)[:-1] > 0)})
         # boundary values: labels that are exactly 0 in every population at some time (weighted up by the generator)
         self.zero_labels = []
         for lab in self.comp_names + self.par_names:
@@ -1441,6 +1443,38 @@ def check_defaults(ctx, w):
             ctx.violation({"api": "PlotData.__init__", "defect": "total_number_is_not_sum"}, f"{w.name}: PlotData(result, pops='total') series {s.output} = {s.vals[0]!r}, sum over populations = {tot[0]!r}", {"kind": "defaults", "demo": w.name})
 
 
+def check_mixed_dt(ctx, w):
+    """'depends only on the quantities, populations and period that were asked for': what PlotData reports for one result does not depend on which OTHER result is passed in the same
+    call -- in particular not on the other result's step size (flows are annualised with the step of their own run)."""
+    import atomica as at
+    import sciris as sc
+
+    if w.name not in ("udt", "tb_simple", "hypertension_dyn"):
+        return
+    try:
+        P2 = sc.dcp(w.P)
+        P2.settings.update_time_vector(dt=w.dt / 2)
+        r2 = P2.run_sim(P2.parsets[0], result_name="halfstep")
+        sel = [x for x in w.link_selectors if x.count(":") == 1 and not x.startswith(":") and not x.endswith(":")][:2] + [w.comp_names[0]]
+        pop = w.pops[0]
+        alone = {r.name: at.PlotData(r, outputs=sel, pops=pop) for r in (w.result, r2)}
+        orders = [[w.result, r2], [r2, w.result]]
+        both = [at.PlotData(rs, outputs=sel, pops=pop) for rs in orders]
+    except Exception as ex:
+        ctx.notes.append(f"mixed-dt probe on {w.name}: {type(ex).__name__}: {str(ex)[:120]}")
+        return
+    ctx.count("probe.mixed_dt_results")
+    ctx.case({"probe": "mixed-dt", "demo": w.name}, nontrivial=True)
+    for d, rs in zip(both, orders):
+        for s_ in d.series:
+            ref = next(x for x in alone[s_.result].series if x.output == s_.output and x.pop == s_.pop)
+            if len(ref.vals) != len(s_.vals) or not np.array_equal(np.asarray(ref.vals), np.asarray(s_.vals), equal_nan=True):
+                ctx.violation({"api": "PlotData.__init__", "defect": "value_depends_on_other_results_in_the_call"},
+                              f"{w.name}: PlotData({[r.name for r in rs]}, outputs={sel}) reports {s_.output} of result {s_.result!r} as {np.asarray(s_.vals)[:2].tolist()}..., the same request for that result alone gives {np.asarray(ref.vals)[:2].tolist()}... (step sizes {w.dt} and {w.dt / 2})",
+                              {"kind": "mixed_dt", "demo": w.name, "outputs": sel, "order": [r.name for r in rs]})
+                return
+
+
 def run_demo(ctx, name, n_uni, max_calls, n_adhoc, n_seq):
     try:
         w = world(name)
@@ -1448,6 +1482,12 @@ def run_demo(ctx, name, n_uni, max_calls, n_adhoc, n_seq):
         ctx.notes.append(f"demo {name} could not be loaded: {type(ex).__name__}: {str(ex)[:100]}")
         return
     check_defaults(ctx, w)
+    check_mixed_dt(ctx, w)
+    if len(w.junction_link_selectors) >= 2:
+        # directed: a weighted average of flows that leave junctions (the random stream reaches it only now and then)
+        labs = ctx.rng.sample(w.junction_link_selectors, min(len(w.junction_link_selectors), ctx.rng.choice([2, 3])))
+        ctx.count("directed.weighted_junction_flows")
+        check_universe(ctx, w, {"demo": w.name, "oa": "weighted", "pa": None, "outs": [("agg", "jflows", labs), ("plain", labs[0])], "pops": [("single", ctx.rng.choice(w.pops))]}, max_calls)
     for _ in range(n_uni):
         uni = gen_universe(w, ctx.rng)
         check_universe(ctx, w, uni, max_calls)
